@@ -720,7 +720,7 @@ std::vector<IWorld*> suitable_worlds(const Run& run, bool want_deferred, bool wa
 
 int pick_flavour(Rng& rng, const Caps& caps, bool need_typeid) {
     if (caps.small_ids)
-        return 0;
+        return caps.projection ? 6 : 0;
     if (need_typeid)
         return 1;
     if (caps.projection)
